@@ -54,6 +54,9 @@ impl Reorg {
   pub(crate) fn handle_reorg(index: &Index, height: u32, depth: u32) -> Result {
     log::info!("rolling back database after reorg of depth {depth} at height {height}");
 
+    #[cfg(feature = "verif")]
+    crate::verif::reorg_event(height, depth)?;
+
     if let redb::Durability::None = index.durability {
       panic!("set index durability to `Durability::Immediate` to test reorg handling");
     }
@@ -63,10 +66,19 @@ impl Reorg {
     let oldest_savepoint =
       wtx.get_persistent_savepoint(wtx.list_persistent_savepoints()?.min().unwrap())?;
 
+    #[cfg(feature = "verif")]
+    crate::verif::crash_point("reorg.before_restore");
+
     wtx.restore_savepoint(&oldest_savepoint)?;
+
+    #[cfg(feature = "verif")]
+    crate::verif::crash_point("reorg.after_restore");
 
     Index::increment_statistic(&wtx, Statistic::Commits, 1)?;
     wtx.commit()?;
+
+    #[cfg(feature = "verif")]
+    crate::verif::crash_point("reorg.after_commit");
 
     log::info!(
       "successfully rolled back database to height {}",
@@ -117,6 +129,9 @@ impl Reorg {
 
       let savepoints = wtx.list_persistent_savepoints()?.collect::<Vec<u64>>();
 
+      #[cfg(feature = "verif")]
+      crate::verif::crash_point("savepoint.before_delete");
+
       if savepoints.len() >= index.settings.max_savepoints() {
         log::info!(
           "Cleaning up savepoints, keeping max {}",
@@ -128,11 +143,17 @@ impl Reorg {
       Index::increment_statistic(&wtx, Statistic::Commits, 1)?;
       wtx.commit()?;
 
+      #[cfg(feature = "verif")]
+      crate::verif::crash_point("savepoint.after_delete_commit");
+
       let wtx = index.begin_write()?;
 
       log::info!("Creating savepoint at height {height}");
 
       wtx.persistent_savepoint()?;
+
+      #[cfg(feature = "verif")]
+      crate::verif::crash_point("savepoint.after_create");
 
       wtx
         .open_table(STATISTIC_TO_COUNT)?
@@ -140,6 +161,9 @@ impl Reorg {
 
       Index::increment_statistic(&wtx, Statistic::Commits, 1)?;
       wtx.commit()?;
+
+      #[cfg(feature = "verif")]
+      crate::verif::crash_point("savepoint.after_create_commit");
     }
 
     Ok(())
